@@ -247,7 +247,7 @@ func TestCheck(t *testing.T) {
 			}
 		}
 	}
-	legacy(t, s)
+	legacy(t, s, thorough)
 	largeFrames(s, thorough)
 	fieldSizes(s, sch, vts, thorough)
 	s.Finish()
